@@ -409,6 +409,23 @@ pub fn sweep_c09(tier: &str, seed: u64) -> (usize, Vec<String>) {
     let mut rng = Rng::new(seed ^ 0xc09);
     let mut fails = Vec::new(); let mut n = 0;
     let reps = if tier == "thorough" { 300 } else { 60 };
+    // every tuple of 1..4 sequence lengths in 0..=3 (incl. leading / interleaved EMPTY sequences): accepted iff all lengths are equal
+    for ns in 1..=4usize {
+        for code in 0..4usize.pow(ns as u32) {
+            let lens: Vec<usize> = (0..ns).map(|i| (code / 4usize.pow(i as u32)) % 4).collect();
+            let sites: Vec<Vec<Nucleotide>> = lens.iter().map(|&l| rand_syms::<Dna>(&mut rng, l, false)).collect();
+            n += 1;
+            let r = catch_unwind(AssertUnwindSafe(|| CountMatrix::<Dna>::from_sequences(sites.iter().map(|s| EncodedSequence::<Dna>::new(s.clone()))).map(|cm| (cm.matrix().rows(), cm.sequence_count()))));
+            let equal = lens.iter().all(|&l| l == lens[0]);
+            let case = format!("lengths={:?}", lens);
+            match r {
+                Err(_) => fails.push(fail("pwm_count_from_sequences", format!("panic at {}", panic_loc()), case)),
+                Ok(Ok((rows, cnt))) => { if !equal { fails.push(fail("pwm_count_from_sequences", "unequal lengths accepted".into(), case)); } else if rows != lens[0] || cnt != ns { fails.push(fail("pwm_count_from_sequences", format!("{} rows / {} sequences reported", rows, cnt), case)); } }
+                Ok(Err(_)) => { if equal { fails.push(fail("pwm_count_from_sequences", "equal lengths rejected".into(), case)); } }
+            }
+            if fails.len() > 2 { break; }
+        }
+    }
     for rep in 0..reps {
         let m = 1 + rng.below(8); let ns = 1 + rng.below(7);
         let wild = rep % 3 == 0;
@@ -529,7 +546,9 @@ pub fn sweep_c16(tier: &str, seed: u64) -> (usize, Vec<String>) {
     let runs = if tier == "thorough" { 40 } else { 8 };
     for run in 0..runs {
         let width = 2 + rng.below(6);
-        let nseq = 2 + rng.below(8);
+        // run 4: a single sequence (the alignment without the held-out sequence is empty); runs 5 / 7: zoops with one / no seed
+        let nseq = if run == 4 { 1 } else { 2 + rng.below(8) };
+        let nseeds = if run == 5 { 1 } else if run == 7 { 0 } else { 2 };
         let lins: Vec<Vec<Nucleotide>> = (0..nseq).map(|_| { let l = width + 1 + rng.below(60); rand_syms::<Dna>(&mut rng, l, run % 3 == 0) }).collect();
         let striped: Vec<StripedSequence<Dna, U32>> = lins.iter().map(|s| {
             let mut st: StripedSequence<Dna, U32> = if run % 4 == 3 {
@@ -541,11 +560,11 @@ pub fn sweep_c16(tier: &str, seed: u64) -> (usize, Vec<String>) {
             st.configure_wrap(width); st }).collect();
         let zoops = run % 2 == 1;
         let steps = if tier == "thorough" { 300 } else { 120 };
-        let case = format!("run={} width={} nseq={} zoops={} lens={:?}", run, width, nseq, zoops, lins.iter().map(|s| s.len()).collect::<Vec<_>>());
+        let case = format!("run={} width={} nseq={} zoops={} seeds={} lens={:?}", run, width, nseq, zoops, nseeds, lins.iter().map(|s| s.len()).collect::<Vec<_>>());
         let r = catch_unwind(AssertUnwindSafe(|| -> Vec<String> {
             let mut f = Vec::new();
             let data = SamplerData::new(striped.clone());
-            let mk = |sd: u64| { let mut b = SamplerBuilder::new(&data); b.width(width); if zoops { b.mode(SamplerMode::Zoops).seeds(2.min(nseq)).patience(1000); } b.sample(rand::rngs::StdRng::seed_from_u64(sd)) };
+            let mk = |sd: u64| { let mut b = SamplerBuilder::new(&data); b.width(width); if zoops { b.mode(SamplerMode::Zoops).seeds(nseeds.min(nseq)).patience(1000); } b.sample(rand::rngs::StdRng::seed_from_u64(sd)) };
             let mut s1 = mk(run as u64 + seed);
             let mut s2 = mk(run as u64 + seed);
             let check_state = |s: &lightmotif::sampler::Sampler<_, Dna, Vec<StripedSequence<Dna, U32>>, U32>, f: &mut Vec<String>, step: usize| {
